@@ -68,6 +68,7 @@ ALIASBLOCK
   gk = nondet_long (); gj = nondet_long (); gh = nondet_long ();
   __CPROVER_assume (V_GHOSTS_OK && V_WF (q) && V_WF (r) && V_WF (n) && V_WF (d));
   long ns = V_SIZ (n), ds = V_SIZ (d), nl = V_ABS (ns), dl = V_ABS (ds);
+  __CPROVER_assume (gh == (dl > 0 ? dl - 1 : 0));        /* third ghost position: the divisor's top limb (must survive a reallocation of an aliased output) */
   mp_limb_t Nk = gk < nl ? V_PTR (n)[gk] : 0, Dj = gj < dl ? V_PTR (d)[gj] : 0, Dk = gk < dl ? V_PTR (d)[gk] : 0;
   g_div0_expected = (dl == 0); g_div_calls = 0;
   __gmpz_tdiv_qr (q, r, n, d);
